@@ -184,6 +184,8 @@ func c08(r *Run) {
 			func(x ssa.Instruction) bool { return ro.isControl(x, ro.evRW2R) }, nil, "Control(PollRW2R) dominates the timeout return")
 	}
 	timerHygiene(r, waitFlush, "writeTimer", "C08")
+	// a parked Flush is released by a close: the close wake-ups (shared with C07.R3)
+	closeWakeRules(r, "C08.R4")
 
 	// ---- R5 count plumbing (send side) -----------------------------------------------------------
 	sendCountRules(r, "C08.R5")
